@@ -1,5 +1,10 @@
 import Indi.Properties.C12
+import Indi.Properties.C18b
 #print axioms Indi.Dev.step_wf
 #print axioms Indi.Dev.C12_no_raise
 #print axioms Indi.Dev.C12_frame
 #print axioms Indi.Dev.C12_session
+#print axioms Indi.Conn.C12_any_bytes_keep_serving
+#print axioms Indi.Conn.serving_stays
+#print axioms Indi.Conn.retained_bounded
+#print axioms Indi.Conn.wf_step
